@@ -222,7 +222,8 @@ class Ctx:
         self.samples = []
         self.dist = collections.Counter()
         self.ties = {}            # name -> dict(compared, disagreements)
-        self.disagreements = []   # (tie name, case, impl, model)
+        self.disagreements = []   # (tie name, case, impl, model) of property-level ties
+        self.repr_disagreements = []   # the same for representation-level ties (never a verdict by themselves)
         self.violations = []      # dict(what, case, footprint)
         self.notes = []
         self.exhaustive = []
@@ -247,14 +248,20 @@ class Ctx:
         self.notes.append(s)
 
     # -- correspondence -----------------------------------------------------------------------
-    def tie(self, name, cases, line_fn, impl_fn, canon_impl=None, canon_model=None, keep=20, impl=True):
+    def tie(self, name, cases, line_fn, impl_fn, canon_impl=None, canon_model=None, keep=20, impl=True, level="property"):
         """cases: list; line_fn(case)->request line; impl_fn(case)->reply string computed by the REAL code
         in the reply syntax of the driver.  Both replies are canonicalised and compared.
         impl=False marks a tie that does not involve /repo (harness mirror vs Lean spec, pyte second opinions).
+        level="property" (default): the tie compares what the property speaks about, on inputs inside its quantifier;
+        a disagreement means the theorems no longer transfer to the implementation (a verdict, after the search).
+        level="representation": the tie compares MORE than the property needs (exact bytes, run layout, exception
+        wording) or inputs OUTSIDE the quantifier; a disagreement deepens the exploration like source drift does and
+        is written into the evidence, but is not a verdict as long as the property-level tie of the same cases holds.
         An exception in line_fn / impl_fn / a canon function is a disagreement on that case, never a crash;
         a driver that cannot be run is infrastructure trouble (exit 2), never a verdict."""
         cases = list(cases)
-        t = self.ties.setdefault(name, dict(compared=0, disagreements=0, involves_impl=impl))
+        t = self.ties.setdefault(name, dict(compared=0, disagreements=0, involves_impl=impl, level=level))
+        sink = self.disagreements if level == "property" else self.repr_disagreements
         lines, skipped = [], 0
         for c in cases:
             try:
@@ -284,8 +291,8 @@ class Ctx:
             t["compared"] += 1
             if a != b:
                 t["disagreements"] += 1
-                if len(self.disagreements) < keep or (len(self.disagreements) < 10 * keep and name not in {d[0] for d in self.disagreements}):
-                    self.disagreements.append((name, c, r, m))
+                if len(sink) < keep or (len(sink) < 10 * keep and name not in {d[0] for d in sink}):
+                    sink.append((name, c, r, m))
         if not cases:
             self.note("tie %s compared nothing" % name)
         return impl_out
